@@ -540,7 +540,7 @@ func ruleRetryablePreWire(p *Prog, r *Out) {
 				if p.calleeOf(c) == "(*Conn).setLastErr" && si < 0 {
 					si = i
 				}
-				if p.calleeOf(c) == "(*Conn).Close" && ci < 0 {
+				if (p.calleeOf(c) == "(*Conn).Close" || p.calleeOf(c) == "(*Conn).shut") && ci < 0 {
 					ci = i
 				}
 			})
@@ -818,7 +818,7 @@ func ruleResolveProtocol(p *Prog, r *Out) {
 		for i, st := range tb.Body.List {
 			if es, ok := st.(*ast.ExprStmt); ok {
 				if c, ok := es.X.(*ast.CallExpr); ok {
-					if p.text(c.Fun) == "ctx.lck.Lock" {
+					if p.text(c.Fun) == "ctx.lck.Lock" || p.lockWrappers()[p.calleeOf(c)] == "Ctx.lck" {
 						dl = i
 					}
 					if p.text(c.Fun) == "ctx.lck.Unlock" {
@@ -844,10 +844,12 @@ func ruleResolveProtocol(p *Prog, r *Out) {
 	for i, s := range wl.Body.List {
 		inspectCalls(s, func(c *ast.CallExpr) {
 			switch p.calleeOf(c) {
-			case "(*Conn).Close":
+			case "(*Conn).Close", "(*Conn).shut":
 				if closeIdx < 0 {
 					closeIdx = i
 				}
+			case "(*Conn).drainQueues":
+				drainIdx = i
 			case "(*Conn).takeAllReqs":
 				takeIdx = i
 			}
@@ -857,6 +859,26 @@ func ruleResolveProtocol(p *Prog, r *Out) {
 				drainIdx = i
 			}
 		}
+	}
+	// the disconnect callback is somebody else's code (the Client dials in it):
+	// it runs after the requests in flight have their answer, so the loop shuts
+	// the connection itself instead of calling Close, which runs the callback
+	cbIdx, viaClose := -1, false
+	for i, s := range wl.Body.List {
+		ast.Inspect(s, func(n ast.Node) bool {
+			if c, ok := n.(*ast.CallExpr); ok {
+				if squash(p.text(c)) == "c.onDisconnect(c)" {
+					cbIdx = i
+				}
+				if p.calleeOf(c) == "(*Conn).Close" {
+					viaClose = true
+				}
+			}
+			return true
+		})
+	}
+	if p.decl("(*Conn).shut") != nil {
+		r.check(!viaClose && cbIdx > takeIdx && cbIdx > drainIdx && takeIdx >= 0, "the disconnect callback runs after the requests are answered", p.pos(wl.Pos()), "shut; resolve in-flight requests; drain; onDisconnect", "the write loop runs the disconnect callback (directly, or through Close) before it has resolved the requests that were in flight: the Client dials a replacement in that callback, and a server that says nothing strands them")
 	}
 	r.check(closeIdx >= 0 && closeIdx < takeIdx && closeIdx < drainIdx && drainIdx >= 0, "close before drain", p.pos(wl.Pos()), "Close < takeAllReqs, drain loop", "the write loop drains its queues before closing the connection: a Write that lands in the queue after the drain is never resolved")
 }
